@@ -167,9 +167,17 @@ def mtu_job(job):
     plans = [[b"\x02" + struct.pack("<H", v)] for v in vals]
     plans += [[b"\x02" + struct.pack("<H", v) for v in vs] for vs in ([517, 64], [64, 517], [23, 185, 23])]
     plans += [[b"\x02"], [b"\x02\x40"], [b"\x02\x40\x00\x00"], [b"\x02" + bytes(40)]]
-    for plan in plans:
+    # the server's own preference (gatt_server.max_mtu) is varied as well: what holds afterwards is the minimum of the two
+    # values that crossed the bearer, whichever side is the smaller one
+    runs = [(None, plan) for plan in plans]
+    for smax in (23, 64, 185):
+        runs += [(smax, [b"\x02" + struct.pack("<H", v)]) for v in (23, 64, 185, 517, 65535) if v != smax]
+        runs.append((smax, [b"\x02" + struct.pack("<H", 517), b"\x02" + struct.pack("<H", 30)]))
+    for smax, plan in runs:
         rig = A.AttRig(seed=seed, max_delay=max_delay, build_db=_db_builder(full), eatt=(kind == "eatt"), server_patch=patch)
         try:
+            if smax is not None:
+                rig.server.max_mtu = smax
             pup = A.Puppet(rig)
             b = 1
             if kind == "eatt":
@@ -193,7 +201,7 @@ def mtu_job(job):
                     sigbase = f"att:after-exchange-mtu:{kind}-bearer:{{}}"
                 raised = raised or len(rig.loop_errors) > nerr
                 out.append((tr, {"kind": "enum", "bearer": kind, "mtu": mtu0, "full": full, "seed": seed, "op": pdu[0], "shape": cause,
-                                 "cause": cause, "pdu": pdu.hex(), "pre": list(pre), "delay": max_delay, "sigbase": sigbase}))
+                                 "cause": cause, "pdu": pdu.hex(), "pre": list(pre), "delay": max_delay, "sigbase": sigbase, "server_max_mtu": smax}))
                 pre.append(pdu.hex())
                 srv = [e for e in tr if e["e"] == "srv"]
                 if pdu[0] != 2 and (raised or len(srv) != 1 or srv[0]["len"] > pup.mtu[b]):
@@ -474,6 +482,8 @@ def replay(ctx, rep):
     if meta["kind"] == "enum":
         rig = A.AttRig(seed=meta["seed"], max_delay=meta["delay"], build_db=_db_builder(meta["full"]), eatt=(meta["bearer"] == "eatt"))
         try:
+            if meta.get("server_max_mtu") is not None:
+                rig.server.max_mtu = meta["server_max_mtu"]
             pup = A.Puppet(rig)
             b = 1
             if meta["bearer"] == "eatt":
